@@ -125,8 +125,13 @@ func filterRun(c Case) ([]string, []string) {
 	return lines, outs
 }
 
-var relPool = []string{"public.a", "public.b", "public.ab", "s.t", "public.\"T x\"", "\"My S\".\"t:1\"", "public.a, public.b", "", "public.customers", "audit.log_2024"}
-var patPool = []string{"^public\\.a$", "public\\..*", "^s\\.", "a", "^audit\\.log_\\d+$", "T x", "b$", "^$", ".*"}
+var relPool = []string{"public.a", "public.b", "public.ab", "s.t", "public.\"T x\"", "\"My S\".\"t:1\"", "public.a, public.b", "", "public.customers", "audit.log_2024",
+	"public.\"Orders\"", "public.orders", "AUDIT.Log_2024", "Public.A", "public.a\nb"}
+
+// patterns include inline flags, alternations and anchors: each pattern is a regular expression of
+// its own, whatever the others in the list say
+var patPool = []string{"^public\\.a$", "public\\..*", "^s\\.", "a", "^audit\\.log_\\d+$", "T x", "b$", "^$", ".*",
+	"(?i)^\"?audit\"?\\.", "^public\\.\"?orders\"?$", "(?i)public\\.a$", "^public\\.a|b$", "(?s)a.b", "(?U)^p.+\\.a", "^(s|audit)\\."}
 
 func filterGen(r *Rng, tier string) Case {
 	lines := []string{}
@@ -245,8 +250,23 @@ func cliMonitor(lines, outs []string, m *Model) []Violation {
 	return vs
 }
 
+// filterMonitor: the property itself (forwarded iff marker or permitted, Props.C08.filter_iff) on
+// what the real stage did with each message.
+func filterMonitor(lines, outs []string, m *Model) []Violation {
+	for i, l := range lines {
+		if i >= len(outs) {
+			break
+		}
+		want, _ := m.Do(l)
+		if strings.HasPrefix(l, "filter msg") && want != outs[i] && (outs[i] == "pass" || outs[i] == "drop") {
+			return []Violation{{"C08", "filter stage decided " + outs[i] + " where the configured filter says " + want + " (" + lines[0] + " | " + l + ")", ""}}
+		}
+	}
+	return nil
+}
+
 func init() {
-	register(&Component{Name: "filter", Gen: filterGen, Run: filterRun, Quick: 600, Thorough: 20000,
+	register(&Component{Name: "filter", Gen: filterGen, Run: filterRun, Monitor: filterMonitor, Quick: 600, Thorough: 20000,
 		Nontrivial: func(lines, outs []string) bool {
 			p, d := false, false
 			for _, o := range outs {
